@@ -31,7 +31,8 @@ type Call struct {
 	H     int    `json:"h"`             // handle the call is made on (index into the handle table)
 	Kind  string `json:"kind,omitempty"` // derive: pages range exh exf exhf join bycol preserve
 	Pages []int  `json:"pages,omitempty"`
-	A, B  int    `json:"a,omitempty"`
+	A     int    `json:"a,omitempty"`
+	B     int    `json:"b,omitempty"`
 }
 
 type Fault struct {
@@ -178,6 +179,21 @@ func (p *Prop) Generate(base uint64, index int, env *sim.Env) *sim.Case {
 			sp.Prog = append(sp.Prog, Call{Op: sim.Pick(pr, []string{"text", "frags", "doc", "chunks"}), H: h})
 		}
 		n = pr.Intn(6)
+	}
+	if sp.Other == "" && nh == 0 && pr.Pct(8) && count >= 3 {
+		// a selection built from both spellings, one after the other on one chain: single
+		// pages, then a range (and the other way round) - every call adds to the selection
+		sp.Prog = append(sp.Prog, Call{Op: "open", H: 0})
+		a := 1 + pr.Intn(count)
+		lo := 1 + pr.Intn(count-1)
+		hi := lo + pr.Intn(count-lo+1)
+		first := Call{Op: "derive", H: 0, Kind: "pages", Pages: []int{a}}
+		second := Call{Op: "derive", H: 1, Kind: "range", A: lo, B: hi}
+		if pr.Bool() {
+			first, second = Call{Op: "derive", H: 0, Kind: "range", A: lo, B: hi}, Call{Op: "derive", H: 1, Kind: "pages", Pages: []int{a}}
+		}
+		sp.Prog = append(sp.Prog, first, second, Call{Op: sim.Pick(pr, []string{"text", "frags", "doc", "chunks"}), H: 2})
+		nh = 3
 	}
 	for i := 0; i < n; i++ {
 		if nh == 0 || (nh < 4 && pr.Pct(10)) {
